@@ -436,6 +436,7 @@ class EvolveAppTask(BaseEvolutionTask):
 
         assert migration_executor is not None
 
+        full_migration_plan = []
         pre_migration_plan = None
         pre_migration_targets = None
         post_migration_plan = None
@@ -528,6 +529,13 @@ class EvolveAppTask(BaseEvolutionTask):
                 pre_migration_plan = migration_executor.migration_plan(
                     pre_migration_targets)
 
+                # Temporarily consider these as applied, so that we can
+                # compute the post-stage plan below. They must not stay in
+                # this list, as execute_tasks() records everything in it as
+                # applied before running anything.
+                orig_extra_applied_migrations = \
+                    extra_applied_migrations.clone()
+
                 excluded_targets.update(pre_migration_targets)
                 extra_applied_migrations.add_migration_targets(
                     pre_migration_targets)
@@ -556,6 +564,10 @@ class EvolveAppTask(BaseEvolutionTask):
                         for plan_item in post_migration_plan
                         if plan_item not in pre_migration_plan_set
                     ]
+
+            if pre_migration_targets:
+                migration_loader.extra_applied_migrations = \
+                    orig_extra_applied_migrations
         else:
             # We may not be migrating, but we still want this state
             # for signal emissions, so create it now.
@@ -563,8 +575,14 @@ class EvolveAppTask(BaseEvolutionTask):
 
         # If we don't have anything to do, then all we'll need to set is
         # pre_migrate_state, since we'll still want it for signal emissions.
+        #
+        # The list of applied migrations is always needed as well, since
+        # evolutions may depend on migrations that were applied in the past
+        # (or are being marked as applied now), whether or not there are any
+        # migrations left to execute.
         result = {
             'pre_migrate_state': pre_migrate_state,
+            'to_mark_applied': migrations_to_mark_applied,
         }
 
         if not pre_migration_plan:
@@ -575,10 +593,12 @@ class EvolveAppTask(BaseEvolutionTask):
             post_migration_plan = None
             post_migration_targets = None
 
-        if pre_migration_plan or post_migration_plan:
+        if (pre_migration_plan or post_migration_plan or
+            extra_applied_migrations):
+            # Even if there's nothing left to execute, any migrations newly
+            # marked as applied still need to be recorded during execution.
             result.update({
                 'full_plan': full_migration_plan,
-                'to_mark_applied': migrations_to_mark_applied,
                 'post_plan': post_migration_plan,
                 'post_targets': post_migration_targets,
                 'pre_plan': pre_migration_plan,
@@ -1292,6 +1312,22 @@ class EvolveAppTask(BaseEvolutionTask):
                                                     database=database_name)
             upgrade_method = app_upgrade_info.get('upgrade_method')
             evolutions = get_evolution_sequence(app)
+
+            if evolutions and evolver.database_state.has_model(Evolution):
+                # The app may not be new to this database after all. If it
+                # never has any models to install here (for instance, all
+                # of its models are routed to another database), it never
+                # gets an app signature, and would be seen as new every
+                # time. Don't record its evolutions more than once.
+                applied_evolutions = set(get_applied_evolutions(
+                    app,
+                    database=database_name))
+
+                evolutions = [
+                    label
+                    for label in evolutions
+                    if label not in applied_evolutions
+                ]
         else:
             orig_upgrade_method = app_sig.upgrade_method
 
